@@ -3,6 +3,7 @@ pub mod c05;
 pub mod c06;
 pub mod c07;
 pub mod c08;
+pub mod c09;
 pub mod util;
 
 use crate::engine::Tier;
@@ -15,11 +16,16 @@ pub fn dispatch(id: &str, tier: Tier, seed: u64) -> Option<i32> {
         "C06" => c06::run(tier, seed),
         "C07" => c07::run(tier, seed),
         "C08" => c08::run(tier, seed),
+        "C09" => c09::run(c09::Mode::C09, tier, seed),
+        "C12" => c09::run(c09::Mode::C12, tier, seed),
         _ => return None,
     })
 }
 
 /// Replay of non-"dynamic" kinds, implemented by the check that writes them.
-pub fn replay_kind(_kind: &str, _j: &serde_json::Value) -> Option<Vec<String>> {
-    None
+pub fn replay_kind(kind: &str, j: &serde_json::Value) -> Option<Vec<String>> {
+    match kind {
+        "parse" => Some(c09::replay_parse(j)),
+        _ => None,
+    }
 }
